@@ -224,8 +224,11 @@ impl RoutingThread {
                     .unwrap();
             }
             Message::Block(_) => {
-                error!("received block message");
-                unreachable!();
+                // blocks travel through the block-fetch path only; a peer that pushes one is ignored
+                warn!(
+                    "received a block message from peer : {:?}. ignoring",
+                    peer_index
+                );
             }
         }
     }
